@@ -123,10 +123,13 @@ func vfStateName(s libcb.State) string {
 }
 
 type vfWOutcome struct {
-	name  string
-	err   error
-	panic bool
+	name   string
+	err    error
+	panic  bool
+	ctxErr bool // return ctx.Err() when the context is cancelled, vfErrHandler otherwise
 }
+
+var vfErrHandler = errors.New("vf-error")
 
 type vfWResult struct {
 	err      error
@@ -135,16 +138,20 @@ type vfWResult struct {
 }
 
 type vfWCall struct {
-	id      int
-	release chan vfWOutcome
-	done    chan vfWResult
+	id        int
+	release   chan vfWOutcome
+	done      chan vfWResult
+	cancel    context.CancelFunc
+	cancelled bool // the call's context was cancelled (before the handler started or while it ran)
 }
 
 // TestVerifC08Wrap drives resilience's circuitBreakerWrapper: calls are started (blocking inside the
 // handler until released), completed with success / error / panic — possibly after the breaker changed
 // state —, and the clock is advanced; the permit decision (handler entered vs ErrShortCircuited), the
 // error / panic passed through and the breaker state are compared with the reference automaton
-// after every step. One recorded result per call is implied: a second record would show up in the window.
+// after every step. The context of a call may be cancelled before the handler starts or while it
+// runs (the handler then returns ctx.Err(), another error, panics or succeeds nevertheless): the call
+// is recorded all the same (as failure or success when it failed after the cancellation). One recorded result per call is implied: a second record would show up in the window.
 func TestVerifC08Wrap(t *testing.T) {
 	vf := vfBegin(t, "C08")
 	defer vf.End()
@@ -165,6 +172,7 @@ func TestVerifC08Wrap(t *testing.T) {
 		tr := c08model.NewTracker(p, start)
 		failPct := rapid.SampledFrom([]int{10, 40, 70, 90}).Draw(rt, "failPct")
 		var outstanding []*vfWCall
+		cancelledFinished, cancelledFailed := 0, 0
 		var hist []string
 		nextID := 0
 		failed := false
@@ -182,12 +190,19 @@ func TestVerifC08Wrap(t *testing.T) {
 			for _, c := range outstanding {
 				c.release <- vfWOutcome{name: "cleanup"}
 				<-c.done
+				c.cancel()
 			}
 		}()
 
-		startCall := func() (*vfWCall, bool) {
+		startCall := func(preCancelled bool) (*vfWCall, bool) {
 			c := &vfWCall{id: nextID, release: make(chan vfWOutcome), done: make(chan vfWResult, 1)}
 			nextID++
+			cctx, cancel := context.WithCancel(context.Background())
+			c.cancel = cancel
+			if preCancelled {
+				cancel()
+				c.cancelled = true
+			}
 			entered := make(chan struct{})
 			var entries int32
 			handler := func(ctx context.Context) error {
@@ -199,6 +214,12 @@ func TestVerifC08Wrap(t *testing.T) {
 				}
 				if o.panic {
 					panic(fmt.Sprintf("vf-panic-%d", c.id))
+				}
+				if o.ctxErr {
+					if e := ctx.Err(); e != nil {
+						return e // what a handler that watches ctx.Done() returns
+					}
+					return vfErrHandler
 				}
 				return o.err
 			}
@@ -212,7 +233,7 @@ func TestVerifC08Wrap(t *testing.T) {
 					}
 					c.done <- res
 				}()
-				res.err = wrapped(context.Background())
+				res.err = wrapped(cctx)
 			}()
 			before := tr.States()
 			permit := false
@@ -232,7 +253,10 @@ func TestVerifC08Wrap(t *testing.T) {
 				}
 			}
 			got := vfStateName(cbw.State())
-			log("start #%d -> admitted=%v state=%s", c.id, permit, got)
+			if !permit {
+				cancel()
+			}
+			log("start #%d (context cancelled=%v) -> admitted=%v state=%s", c.id, c.cancelled, permit, got)
 			if ok, want := tr.ObserveAcquire(c.id, vfNow(), permit, got); !ok {
 				if permit {
 					outstanding = append(outstanding, c)
@@ -247,24 +271,42 @@ func TestVerifC08Wrap(t *testing.T) {
 			before := tr.States()
 			c.release <- o
 			res := <-c.done
+			c.cancel()
 			got := vfStateName(cbw.State())
-			log("finish #%d %s -> err=%v panicked=%v state=%s", c.id, o.name, res.err, res.panicked, got)
+			log("finish #%d %s (context cancelled=%v) -> err=%v panicked=%v state=%s", c.id, o.name, c.cancelled, res.err, res.panicked, got)
+			wantErr := o.err
+			if o.ctxErr {
+				wantErr = vfErrHandler
+				if c.cancelled {
+					wantErr = context.Canceled
+				}
+			}
 			if o.panic {
 				if !res.panicked || fmt.Sprint(res.panicVal) != fmt.Sprintf("vf-panic-%d", c.id) {
 					report("handler-panic-not-propagated", "handler panicked but the wrapped call returned err=%v panic=%v", res.err, res.panicVal)
 					return
 				}
-			} else if res.panicked || res.err != o.err {
-				report("handler-result-not-passed-through", "handler returned %v but the wrapped call returned err=%v panic=%v", o.err, res.err, res.panicVal)
+			} else if res.panicked || res.err != wantErr {
+				report("handler-result-not-passed-through", "handler returned %v but the wrapped call returned err=%v panic=%v", wantErr, res.err, res.panicVal)
 				return
 			}
 			dur := int64(0)
 			if slowMode {
 				dur = p.SlowDur + 1 // slept 50µs > 1µs threshold
 			}
-			hasErr := o.panic || o.err != nil
-			if ok, want := tr.ObserveRecord(c.id, hasErr, dur, vfNow(), got); !ok {
-				report(fmt.Sprintf("wrapper: %s in model-state %s: state=%s", o.name, before, got),
+			hasErr := o.panic || wantErr != nil
+			if c.cancelled {
+				cancelledFinished++
+				if hasErr {
+					cancelledFailed++
+				}
+			}
+			what := o.name
+			if c.cancelled {
+				what += " after cancellation"
+			}
+			if ok, want := tr.ObserveRecordX(c.id, hasErr, c.cancelled, dur, vfNow(), got); !ok {
+				report(fmt.Sprintf("wrapper: %s in model-state %s: state=%s", what, before, got),
 					"after the call finished (%s) the breaker is %s; the contract allows: %s", o.name, got, want)
 			}
 		}
@@ -274,25 +316,47 @@ func TestVerifC08Wrap(t *testing.T) {
 				if rapid.IntRange(0, 2).Draw(rt, "panic") == 0 {
 					return vfWOutcome{name: "panic", panic: true}
 				}
-				return vfWOutcome{name: "error", err: fmt.Errorf("vf-error")}
+				if rapid.Bool().Draw(rt, "ctxErr") {
+					return vfWOutcome{name: "ctx-error", ctxErr: true}
+				}
+				return vfWOutcome{name: "error", err: vfErrHandler}
 			}
 			return vfWOutcome{name: "ok"}
 		}
 
+		genPre := func(rt *rapid.T) bool { return rapid.IntRange(0, 9).Draw(rt, "preCancelled") == 0 }
 		actStart := func(rt *rapid.T) {
 			if failed {
 				return
 			}
-			if c, permit := startCall(); c != nil && permit {
+			if c, permit := startCall(genPre(rt)); c != nil && permit {
 				outstanding = append(outstanding, c)
 			}
+		}
+		actCancel := func(rt *rapid.T) {
+			if failed {
+				return
+			}
+			var live []*vfWCall
+			for _, c := range outstanding {
+				if !c.cancelled {
+					live = append(live, c)
+				}
+			}
+			if len(live) == 0 {
+				rt.Skip()
+			}
+			c := live[rapid.IntRange(0, len(live)-1).Draw(rt, "whichCancel")]
+			c.cancel()
+			c.cancelled = true
+			log("cancel the context of #%d", c.id)
 		}
 		actCall := func(rt *rapid.T) {
 			if failed {
 				return
 			}
 			o := genOutcome(rt)
-			if c, permit := startCall(); c != nil && permit {
+			if c, permit := startCall(genPre(rt)); c != nil && permit {
 				finish(c, o)
 			}
 		}
@@ -326,6 +390,7 @@ func TestVerifC08Wrap(t *testing.T) {
 			"call1": actCall, "call2": actCall, "call3": actCall, "call4": actCall,
 			"finish1": actFinish, "finish2": actFinish,
 			"advance1": actAdvance, "advance2": actAdvance,
+			"cancel1": actCancel,
 		})
 		if failed {
 			return
@@ -336,6 +401,12 @@ func TestVerifC08Wrap(t *testing.T) {
 		}
 		if slowMode {
 			vf.Class("wrap: policy where every call is slow")
+		}
+		if cancelledFinished > 0 {
+			vf.Class("wrap: history-with-call-finished-after-cancellation")
+		}
+		if cancelledFailed > 0 {
+			vf.Class("wrap: history-with-call-failed-after-cancellation")
 		}
 		vf.Case(st.NonTrivial(), "wrap||"+p.String()+"||"+strings.Join(hist, ";"), func() interface{} {
 			h := hist
